@@ -101,6 +101,9 @@ def explore(ck, bdir, root, cases, label, args_for=None):
                 ck.extra["outcomes_" + label][key] = ck.extra["outcomes_" + label].get(key, 0) + 1
                 if bad:
                     fp = "%s:%s:%s" % (tool, bad, where(err))
+                    if bad == "hang":
+                        import hashlib
+                        fp += hashlib.sha1(data).hexdigest()[:10]      # a run that does not end has no location: the input identifies it
                     if fp not in seen:
                         seen.add(fp)
                         ck.violation(fp, "%s ends with %s on %s (%d bytes)%s" % (tool, bad, name, len(data), " at " + where(err) if where(err) else ""),
